@@ -37,7 +37,7 @@ func init() {
 		Title:     "Head chunks on disk are readable at once and after restart",
 		Level:     "exploration",
 		Technique: "history monitor on ChunkDiskMapper: porcupine linearizability check per chunk ref (write-once register that a covering Truncate may clear), restart oracle over IterateAllChunks, torn-tail sweep over truncation offsets of the newest file; queue worker stepped through the chunks.queue hooks, free-running goroutines on a -race build",
-		LevelText: "Controller mode: generated sessions of WriteChunk / Chunk / CutNewFile / Truncate on the real ChunkDiskMapper (write queue sizes 0,1,4,16; real XOR/histogram/float-histogram chunks and opaque chunks from 4 bytes to beyond the 64 KiB write buffer; in-order and out-of-order flag). The queue worker is held at chunks.queue.beforeProcess and released job by job, so reads are placed while a chunk is still queued, right after it was processed (write buffer) and after flushes/cuts (m-mapped file). Every call is recorded with logical call/return times; per chunk ref porcupine checks the history against a write-once register: a read must return exactly the written bytes, an error is legal only if a Truncate(fileNo) with the ref's file < fileNo was invoked before the read returned; a ref may be handed out again only after such a Truncate. Each session ends with Close and the next one starts with NewChunkDiskMapper + IterateAllChunks, which must yield, per retained file in ascending order, exactly the chunks written to it in write (offset) order with series ref, min/max time, sample count, encoding and OOO flag; files not covered by any Truncate invocation must all be present, and Chunk(ref) must return the written bytes. Torn tails: the final directory is copied, its newest file cut at sampled offsets (every offset for small cases and in the thorough tier's first cases), and a fresh mapper must either fail to open or iterate all older files completely plus a prefix of complete chunks of the cut file (all of them if it reports no error) with correct metadata and bytes. Free-running mode: 2 writers, 2 readers and a cutter/truncator run unsynchronised (also under -race), same porcupine and restart oracles. Held on the observed histories only.",
+		LevelText: "Controller mode: generated sessions of WriteChunk / Chunk / CutNewFile / Truncate on the real ChunkDiskMapper (write queue sizes 0,1,4,16; real XOR/histogram/float-histogram chunks and opaque chunks from 4 bytes to beyond the 64 KiB write buffer; in-order and out-of-order flag). The queue worker is held at chunks.queue.beforeProcess and released job by job, so reads are placed while a chunk is still queued, right after it was processed (write buffer) and after flushes/cuts (m-mapped file). Every call is recorded with logical call/return times; per chunk ref porcupine checks the history against a write-once register: a read must return exactly the written bytes, an error is legal only if a Truncate(fileNo) with the ref's file < fileNo was invoked before the read returned; a ref may be handed out again only after such a Truncate. Each session ends with Close and the next one starts with NewChunkDiskMapper + IterateAllChunks, which must yield, per retained file in ascending order, exactly the chunks written to it in write (offset) order with series ref, min/max time, sample count, encoding and OOO flag; files not covered by any Truncate invocation must all be present, and Chunk(ref) must return the written bytes. Torn tails: the final directory is copied, its newest file torn at sampled offsets (every offset for small cases and in the thorough tier's first cases) in two ways - cut short at the offset, or same length with everything from the offset on reading as zeros - and a fresh mapper must either fail to open or iterate all older files completely plus a prefix of the intact chunks of the torn file (all of them if it reports no error) with correct metadata and bytes. Free-running mode: 2 writers, 2 readers and a cutter/truncator run unsynchronised (also under -race), same porcupine and restart oracles. Held on the observed histories only.",
 		LevelNote: "Reductions: reads are never required to fail after a Truncate (the statement only limits what truncation may remove), so a register that a covering Truncate has touched accepts both the bytes and an error. 'During queue processing' is reached by the free-running mode only; the hooks give before/after. A mapper that refuses to open a cut directory counts as 'not returned as data' (also inside the 8-byte header). Generated chunks never use series ref 0 with mint=maxt=0 (documented end marker) and always hold at least one sample; opaque chunks have at least 4 data bytes (IterateAllChunks reports a file that ends exactly after a record with fewer data bytes as corrupt; real chunk encodings need >= 11 bytes for one sample). Trusted: porcupine's checker; logical clock from one atomic counter.",
 		DesignRef: "DESIGN.md §5 C25",
 		Rule:      "case = 1-3 sessions of 10-60 operations on one directory plus the torn-tail sweep; non-trivial iff >= 5 chunks were written, >= 1 read was served while its job was still queued or >= 2 files exist, the restart check ran and >= 5 cut offsets were evaluated (controller) resp. >= 20 reads overlapped the run (free-running); distinct by the operation sequence with chunk sizes",
@@ -360,8 +360,10 @@ func (y yielded) matches(r *rec) string {
 }
 
 // checkRestart compares what IterateAllChunks yields after a restart with the model.
-// cutSeq/cutAt (cutSeq >= 0): the file cutSeq was cut at byte cutAt; iterErr is the iteration's error.
-func (w *world) checkRestart(what string, ys []yielded, iterErr error, cutSeq, cutAt int) bool {
+// cutSeq/intact (cutSeq >= 0): the tail of file cutSeq was torn; its first `intact` records are
+// byte-identical to what was written, the next one is not (or does not exist); iterErr is the
+// iteration's error.
+func (w *world) checkRestart(what string, ys []yielded, iterErr error, cutSeq, intact int) bool {
 	files := w.files()
 	summary := func() string {
 		var sb bytes.Buffer
@@ -423,8 +425,8 @@ func (w *world) checkRestart(what string, ys []yielded, iterErr error, cutSeq, c
 				w.c.Violatef(kindPrefix+"-wrong-chunk", "%s: file %d chunk %d: yielded %s", what, seq, i, d)
 				return false
 			}
-			if seq == cutSeq && ml[i].off+ml[i].recordLen > cutAt {
-				w.c.Violatef("torn-tail-chunk-returned", "%s: file %d cut at byte %d: IterateAllChunks yielded the chunk at %d..%d which is not completely inside the file", what, seq, cutAt, ml[i].off, ml[i].off+ml[i].recordLen)
+			if seq == cutSeq && i >= intact {
+				w.c.Violatef("torn-tail-chunk-returned", "%s: file %d: IterateAllChunks yielded chunk #%d at %d..%d although only the first %d records of the file are intact", what, seq, i, ml[i].off, ml[i].off+ml[i].recordLen, intact)
 				return false
 			}
 		}
@@ -441,14 +443,8 @@ func (w *world) checkRestart(what string, ys []yielded, iterErr error, cutSeq, c
 		gl := got[seq]
 		switch {
 		case seq == cutSeq:
-			complete := 0
-			for _, r := range ml {
-				if r.off+r.recordLen <= cutAt {
-					complete++
-				}
-			}
-			if iterErr == nil && len(gl) != complete {
-				w.c.Violatef("torn-tail-silent-loss", "%s: file %d cut at byte %d holds %d complete chunks; IterateAllChunks yielded %d and reported no error", what, seq, cutAt, complete, len(gl))
+			if iterErr == nil && len(gl) != intact {
+				w.c.Violatef("torn-tail-silent-loss", "%s: file %d holds %d intact chunks before the torn part; IterateAllChunks yielded %d and reported no error", what, seq, intact, len(gl))
 				return false
 			}
 		case cutSeq >= 0 && seq > cutSeq:
@@ -954,7 +950,7 @@ func (w *world) finalAndTorn(r *rand.Rand, everyOffset bool) (int, bool) {
 	}
 	var offsets []int
 	limit := min(end+40, len(content))
-	if everyOffset && limit <= 2500 {
+	if everyOffset && limit <= 1500 {
 		for o := 0; o <= limit; o++ {
 			offsets = append(offsets, o)
 		}
@@ -979,32 +975,55 @@ func (w *world) finalAndTorn(r *rand.Rand, everyOffset bool) (int, bool) {
 		}
 	}
 	scratchRoot := c.TempDir()
+	recsNewest := w.files()[newestSeq]
 	for i, off := range offsets {
-		sd := filepath.Join(scratchRoot, fmt.Sprintf("cut%d", i))
-		core.Must(os.MkdirAll(sd, 0o777), "mkdir scratch")
-		for _, n := range names[:len(names)-1] {
-			core.Must(os.Link(filepath.Join(w.dir, n), filepath.Join(sd, n)), "link head chunk file")
-		}
-		core.Must(os.WriteFile(filepath.Join(sd, newest), content[:off], 0o666), "write cut file")
-		what := fmt.Sprintf("newest file %s (%d content bytes) cut at byte %d", newest, end, off)
-		c.Count("torn_tail_offsets_evaluated", 1)
-		m, err := chunks.NewChunkDiskMapper(nil, sd, chunkenc.NewPool(), 64*1024, 0)
-		if err != nil {
-			c.Count("torn_tail_open_refused", 1)
+		for variant := 0; variant < 2; variant++ {
+			// variant 0: the file ends at off; variant 1: same size, everything from off on reads as zeros
+			// (what a preallocated file shows when its last pages never reached the disk)
+			torn := content[:off:off]
+			vname := "cut at"
+			if variant == 1 {
+				if off >= end {
+					continue // nothing but zeros behind the content anyway
+				}
+				torn = append(append([]byte(nil), content[:off]...), make([]byte, len(content)-off)...)
+				vname = "zero-filled from"
+			}
+			intact := 0
+			for _, rc := range recsNewest {
+				if rc.off+rc.recordLen <= len(torn) && bytes.Equal(torn[rc.off:rc.off+rc.recordLen], content[rc.off:rc.off+rc.recordLen]) {
+					intact++
+				} else {
+					break
+				}
+			}
+			sd := filepath.Join(scratchRoot, fmt.Sprintf("cut%d-%d", i, variant))
+			core.Must(os.MkdirAll(sd, 0o777), "mkdir scratch")
+			for _, n := range names[:len(names)-1] {
+				core.Must(os.Link(filepath.Join(w.dir, n), filepath.Join(sd, n)), "link head chunk file")
+			}
+			core.Must(os.WriteFile(filepath.Join(sd, newest), torn, 0o666), "write torn file")
+			what := fmt.Sprintf("newest file %s (%d content bytes, %d records) %s byte %d", newest, end, len(recsNewest), vname, off)
+			c.Count("torn_tail_offsets_evaluated", 1)
+			c.Seen("torn_tail_variant", vname)
+			m, err := chunks.NewChunkDiskMapper(nil, sd, chunkenc.NewPool(), 64*1024, 0)
+			if err != nil {
+				c.Count("torn_tail_open_refused", 1)
+				os.RemoveAll(sd)
+				continue
+			}
+			ys, ierr := iterate(m)
+			if ierr != nil {
+				c.Count("torn_tail_iterate_reported_corruption", 1)
+			} else {
+				c.Count("torn_tail_iterate_clean", 1)
+			}
+			ok := w.checkRestart(what, ys, ierr, newestSeq, intact) && w.readBack(what, "torn-tail-read-mismatch", m, ys)
+			m.Close()
 			os.RemoveAll(sd)
-			continue
-		}
-		ys, ierr := iterate(m)
-		if ierr != nil {
-			c.Count("torn_tail_iterate_reported_corruption", 1)
-		} else {
-			c.Count("torn_tail_iterate_clean", 1)
-		}
-		ok := w.checkRestart(what, ys, ierr, newestSeq, off) && w.readBack(what, "torn-tail-read-mismatch", m, ys)
-		m.Close()
-		os.RemoveAll(sd)
-		if !ok {
-			return 0, false
+			if !ok {
+				return 0, false
+			}
 		}
 	}
 	return len(offsets), true
